@@ -159,7 +159,9 @@ CLAIMED = {
     "C16": ("Lean 4 proof (propagate = boolean evaluation on visible nodes; class tuples by case analysis on generated data)" + T_CORR,
             "Theorem propagate_correct: under the property's hypotheses, for both default operations and every truth "
             "assignment, a visible node is in the matching set iff it evaluates to true, in the other set iff false, each "
-            "exactly once.",
+            "exactly once. Theorem propagate_correct_reported: the same conclusion when the names of parenthesised "
+            "operations are reported too (as a search engine does), provided the report is truthful and no negation lies "
+            "strictly between the element and its operation (examples show both conditions are needed).",
             NOTE_COMMON, "5 C16"),
     "C17": ("Lean 4 proof (erase tags = text, balanced, render, class per character, parsimonious = same classes)" + T_CORR,
             "Theorems for any tree, any path sets, both modes: erasing the tags from the token-level output gives the tree's "
